@@ -55,6 +55,19 @@ SEEDS = {
           T(["G", "g1", "a+", "b+", "10", "*"]),
           T(["O", "o1", "a+ b+"]),
           T(["U", "u1", "a e1 g1"]), T(["U", "u2", "u1 o1"])],
+    # the same identifier mentioned twice by one record (a path over a
+    # self-link; a group visiting a segment twice)
+    "P-repeat": [T(["S", "A", "*"]), T(["S", "B", "*"]),
+                 T(["L", "A", "+", "A", "+", "*"]),
+                 T(["L", "B", "-", "A", "-", "1M"]),
+                 T(["P", "s", "A+,A+,B+", "*"]),
+                 T(["P", "t", "B-,A-,A-", "*"])],
+    "O-repeat": [T(["S", "a", "4", "*"]), T(["S", "b", "4", "*"]),
+                 T(["E", "e1", "a+", "a+", "2", "4$", "0", "2", "*"]),
+                 T(["E", "e2", "a+", "b+", "2", "4$", "0", "2", "*"]),
+                 T(["O", "o1", "a+ a+ b+"]),
+                 T(["O", "o2", "a+ e1+ a+ e2+ b+"]),
+                 T(["U", "u1", "o1 e1 a"])],
 }
 
 
@@ -454,10 +467,21 @@ def run(ctx):
     items.sort(key=lambda it: (-len(it[1]), it[0], it[2], str(it[3])))
     found = []
     written = set()
+    procs = schedules.spawn_slices("c03")
     for r in ctx.pmap(work, items, chunksize=1):
       found.extend(r.pop("found"))
       written.update(r.pop("written"))
       ctx.merge(r)
+    summary, diffs = schedules.collect_slices(procs, slice_cases())
+  ctx.extra["hashseed_crosschecks"] = summary
+  for sd, case, mine, other in diffs[:20]:
+    ctx.violation(mkviolation(
+        "hashseed-dependent", {"case": case, "seed": str(sd)},
+        {"hashseed": sd, "case": case, "clause": "hashseed-dependent"},
+        "same observation under PYTHONHASHSEED=0 and {}".format(sd),
+        {"seed0": mine, "seed{}".format(sd): other},
+        "# run twice: PYTHONHASHSEED=0 and PYTHONHASHSEED={}\n".format(sd) +
+        "# case " + case))
   ctx.samples.sort(key=repr)
   bylines = {d[0]: d[1] for d in docs}
   ctx.extra["documents"] = len(docs)
@@ -465,7 +489,8 @@ def run(ctx):
       f: sum(1 for d in docs if d[2] == f) for f in ("G1", "G2", "seed")}
   ctx.extra["distinct_written_forms"] = len(written)
   ctx.extra["failing_orders_before_minimisation"] = len(found)
-  ctx.bound_completed = {"max_lines_subsets": kmax, "seed_lines": 7}
+  ctx.bound_completed = {"max_lines_subsets": kmax,
+                         "seed_lines": [len(v) for v in SEEDS.values()]}
   # ---- minimise over documents: keep a failing document only if no failing
   # proper sub-document exists for the same (clause, what, entry) -----------
   # One root cause fails through every entry point and under two clauses;
@@ -498,7 +523,34 @@ def run(ctx):
   ctx.extra["minimal_failing_documents"] = reported
 
 
+def slice_cases():
+  """Fixed slice for the hash-seed cross-check: every valid subset of G1 / G2
+  with <= 4 lines, every order, Gfa(list); digest of the canonical
+  observation (or of the outcome)."""
+  out = {}
+  for name, U in (("G1", G1), ("G2", G2M)):
+    for idx, lines, cls in closure.closed_subsets(U, 4):
+      if cls != "valid":
+        continue
+      for order in schedules.orders(len(lines)):
+        oc, ob, det = run_order("list", [lines[i] for i in order], None)
+        if ob is not None:
+          ob = dict(ob)
+          ob.pop("written", None)
+        out["{}:{} / {}".format(name, ",".join(map(str, idx)), order)] = \
+            h([oc, ob])
+  return out
+
+
 def replay(w, ctx):
+  if w.get("clause") == "hashseed-dependent":
+    own = slice_cases()
+    summary, diffs = schedules.collect_slices(
+        schedules.spawn_slices("c03", seeds=(w["hashseed"],)), own)
+    return [mkviolation("hashseed-dependent",
+                        {"case": c, "seed": str(sd)}, w, "same observation",
+                        {"seed0": a, "other": b}) for sd, c, a, b in diffs
+            if c == w["case"]]
   doc, order, entry = w["doc"], w["order"], w["entry"]
   out = []
   with schedules.Scratch("c03_") as scratch:
